@@ -155,6 +155,18 @@ def part_b(_item):
             rr = H.guarded(lazy_raw)
             if rr[0] != 'ok' or any(x != exp_raw for x in rr[1]):
                 bad('read-data-lazy', 'bit-exact raw timestamps through index / chunk streams (big=%s il=%s)' % (big, il), repr(rr)[:200])
+            # ... and defragmented: the copy holds the same raw timestamps, as data and as properties
+            res['counters']['cases'] += 1
+
+            def defrag():
+                out2 = io.BytesIO()
+                TdmsWriter.defragment(io.BytesIO(data), out2)
+                t2 = H.TdmsFile.read(io.BytesIO(out2.getvalue()), raw_timestamps=True)
+                return H.norm_array(t2['g']['t'][:]), [(int(t2.properties['t%d' % i].seconds), int(t2.properties['t%d' % i].second_fractions))
+                                                      for i in range(len(RAW))]
+            rd2 = H.guarded(defrag)
+            if rd2[0] != 'ok' or rd2[1][0] != ('ts', 10, exp_raw) or rd2[1][1] != [tuple(x) for x in RAW]:
+                bad('defragment-source', 'bit-exact raw timestamps after defragmenting a generated file (big=%s il=%s)' % (big, il), repr(rd2)[:200])
             pairs = np.frombuffer(exp_raw, dtype=[('f', '<u8'), ('s', '<i8')])
             # (properties outside the datetime64[us] range cannot be converted at all: the default-mode file leaves them out)
             h2 = [G.seg([(o_['path'], o_['enc'], [p_ for p_ in o_['props'] if abs(struct.unpack('<Qq', bytes.fromhex(p_[2]))[1]) < 9 * 10 ** 12])
